@@ -143,17 +143,33 @@ def impl_init():
         except DatabaseError:
             return True
 
+    # packets / payloads of unusual but legal shape: whether a section is loaded may not depend on what is asked about
+    PROBE = U.scapy_from_spec({"flags": 2, "win": 1337, "opts": W.o_mss(1331)})            # the p0f-sendsyn probe shape (Options.special_mss / special_window)
+    PROBE_SA = U.scapy_from_spec({"flags": 0x12, "ack": 5, "win": 1337, "opts": W.o_mss(1331)})
+    ZWIN = U.scapy_from_spec({"flags": 2, "win": 0, "ttl": 255, "opts": W.o_mss(65535)})
+    V6 = U.scapy_from_spec({"v": 6, "flags": 2, "opts": W.o_mss(1440)})
+    HTTP_REQ0 = b"HEAD / HTTP/1.0\n\n"
+    EXTRA = {"mtu": [PROBE, PROBE_SA, ZWIN, V6], "tcp_req": [PROBE, ZWIN, V6], "tcp_resp": [PROBE_SA]}
+
     def section_views(d):
         """Which fingerprint entry points report DatabaseError (no such section loaded) through Options(database=d)."""
         o = Options(database=d)
-        return {"mtu": raises_db_error(lambda: fingerprint_mtu(PKT, options=o)), "tcp_req": raises_db_error(lambda: fingerprint_tcp(PKT, options=o)),
-                "tcp_resp": raises_db_error(lambda: fingerprint_tcp(SYNACK, options=o)), "http_req": raises_db_error(lambda: fingerprint_http(HTTP_REQ, options=o)),
-                "http_resp": raises_db_error(lambda: fingerprint_http(HTTP_RESP, options=o))}
+        v = {"mtu": raises_db_error(lambda: fingerprint_mtu(PKT, options=o)), "tcp_req": raises_db_error(lambda: fingerprint_tcp(PKT, options=o)),
+             "tcp_resp": raises_db_error(lambda: fingerprint_tcp(SYNACK, options=o)), "http_req": raises_db_error(lambda: fingerprint_http(HTTP_REQ, options=o)),
+             "http_resp": raises_db_error(lambda: fingerprint_http(HTTP_RESP, options=o))}
+        # the other shapes must agree with the plain one of their section (a disagreement is reported as the opposite of the truth for that section)
+        for k, pkts in EXTRA.items():
+            for x in pkts:
+                if raises_db_error(lambda: (fingerprint_mtu if k == "mtu" else fingerprint_tcp)(x, options=o)) != v[k]:
+                    v[k] = "depends on the packet asked about"
+        if raises_db_error(lambda: fingerprint_http(HTTP_REQ0, options=o)) != v["http_req"]:
+            v["http_req"] = "depends on the payload asked about"
+        return v
 
     def impl(c):
         db = Database()
         versions = {0: U.dump_db(db)}
-        if fp_view(db) != ["DatabaseError"] or not all(section_views(db).values()):
+        if fp_view(db) != ["DatabaseError"] or not all(x is True for x in section_views(db).values()):
             return [[{"fingerprint_before_any_load_did_not_raise_DatabaseError": [fp_view(db), section_views(db)]}, []]]
         torn = []
         races = []
